@@ -3,6 +3,7 @@ package meta
 import (
 	"errors"
 	"fmt"
+	"math"
 
 	"github.com/freeconf/yang/val"
 )
@@ -351,6 +352,19 @@ func (c *compiler) compileType(y *Type, parent Leafable, isUnion bool) error {
 		}
 	}
 
+	// min and max standing on their own in a range or length
+	if len(y.ranges) > 0 {
+		if lo, hi, known := typeLimits(y.format.Single(), y.fractionDigits); known {
+			resolveRangeKeywords(y.ranges, lo, hi)
+		}
+	}
+	if len(y.lengths) > 0 {
+		lo, hi, _ := typeLimits(val.FmtInt64, 0)
+		none := int64(0)
+		lo.integer = &none
+		resolveRangeKeywords(y.lengths, lo, hi)
+	}
+
 	if y.format == val.FmtBits || y.format == val.FmtBitsList {
 		// RFC7950 Sec 9.7.4.2 - without a position, one more than the highest position so far
 		nextPos := 0
@@ -449,4 +463,46 @@ func (c *compiler) typedef(t *Typedef) error {
 		return fmt.Errorf("%s - %s type required", SchemaPath(t), t.ident)
 	}
 	return nil
+}
+
+// typeLimits are the lowest and highest value of a built-in numeric type
+func typeLimits(f val.Format, fractionDigits int) (lo RangeNumber, hi RangeNumber, known bool) {
+	signed := func(bits uint) (RangeNumber, RangeNumber, bool) {
+		l, h := -(int64(1) << (bits - 1)), (int64(1)<<(bits-1))-1
+		return RangeNumber{str: "min", integer: &l}, RangeNumber{str: "max", integer: &h}, true
+	}
+	unsigned := func(bits uint) (RangeNumber, RangeNumber, bool) {
+		l, h := int64(0), ^uint64(0)>>(64-bits)
+		if bits < 64 {
+			ih := int64(h)
+			return RangeNumber{str: "min", integer: &l}, RangeNumber{str: "max", integer: &ih}, true
+		}
+		return RangeNumber{str: "min", integer: &l}, RangeNumber{str: "max", unsigned: &h}, true
+	}
+	switch f {
+	case val.FmtInt8:
+		return signed(8)
+	case val.FmtInt16:
+		return signed(16)
+	case val.FmtInt32:
+		return signed(32)
+	case val.FmtInt64:
+		return signed(64)
+	case val.FmtUInt8:
+		return unsigned(8)
+	case val.FmtUInt16:
+		return unsigned(16)
+	case val.FmtUInt32:
+		return unsigned(32)
+	case val.FmtUInt64:
+		return unsigned(64)
+	case val.FmtDecimal64:
+		h := float64(math.MaxInt64)
+		for i := 0; i < fractionDigits; i++ {
+			h /= 10
+		}
+		l := -h
+		return RangeNumber{str: "min", float: &l}, RangeNumber{str: "max", float: &h}, true
+	}
+	return
 }
